@@ -433,7 +433,7 @@ def main(prop, argv=None):
         mbudget = 90 if args.tier == "quick" else 300
         small, tried = _minimise_in_fresh_worker(prop, args.tier, case,
                                                  {"class": k[0], "clause": k[1], "sig": v.get("sig")}, mbudget)
-        rdir = os.path.join(VERIF, "replays", prop)
+        rdir = os.path.join(os.environ.get("VERIF_REPLAY_DIR") or os.path.join(VERIF, "replays"), prop)
         path = os.path.join(rdir, f"{results[idx]['seed']}-{len(reported)}.json")
         rep = {
             "property": prop,
@@ -481,7 +481,8 @@ def main(prop, argv=None):
     if new_viols:
         # violations whose case could not be captured: still a violation
         idx, v, _ = new_viols[0]
-        path = os.path.join(VERIF, "replays", prop, f"seed-{results[idx]['seed']}.json")
+        path = os.path.join(os.environ.get("VERIF_REPLAY_DIR") or os.path.join(VERIF, "replays"), prop,
+                            f"seed-{results[idx]['seed']}.json")
         _write_json(path, {"property": prop, "seed": results[idx]["seed"], "violation": v})
         print(f"VIOLATION property={prop} replay={path}", flush=True)
         return 1
